@@ -43,7 +43,7 @@ def _op(draw, depth=0):
     if kind == "src":
         pn = draw(st.sampled_from(["v", "w", "s"]))
         val = draw(st.integers(-20, 60)) if pn != "s" else draw(st.sampled_from(["a", "b", "cc"]))
-        if pn != "s" and draw(st.integers(0, 9)) == 0:
+        if pn != "s" and draw(st.integers(0, 5)) == 0:
             val = 5000            # invalid for the Number targets (bounds +-1000)
         return ["src", draw(st.integers(0, 1)), pn, val]
     if kind == "batch":
